@@ -214,17 +214,23 @@ def run(tier, r):
     mem += [("stronginc3", ())]
     mem += [("rastrigin", (n,)) for n in range(1, 31)] + [("xsquared", (n,)) for n in range(1, 31)]
     violations, samples = [], []
-    stats = {"metadata_members": {}, "dimensions": {}, "members_with_duplicate_variable_names": 0,
+    stats = {"metadata_members": {}, "dimensions": {}, "members_with_empty_or_duplicate_variable_names": 0,
              "table_rows": {}, "fast_path_rejected": 0, "analytic_derivative_rejected": 0,
              "max_value_err": {}, "max_loc_err_over_range": {}, "max_L_rel_err": {}}
     for fam, args in mem:
-        viol, info = check_metadata(fam, args)
+        res, err = oc.guarded(check_metadata, fam, args)
+        if err is not None:
+            violations.append({"property": "C18", "part": "metadata", "family": fam, "args": list(args), "tier": tier,
+                               "clause": "exception", "observed": err})
+            stats["exceptions"] = stats.get("exceptions", 0) + 1
+            continue
+        viol, info = res
         for c in viol:
             c["tier"] = tier
         violations += viol
         stats["metadata_members"][fam] = stats["metadata_members"].get(fam, 0) + 1
         stats["dimensions"][str(info.get("n"))] = stats["dimensions"].get(str(info.get("n")), 0) + 1
-        stats["members_with_duplicate_variable_names"] += 1 if info.get("duplicate_names") else 0
+        stats["members_with_empty_or_duplicate_variable_names"] += 1 if info.get("duplicate_names") else 0
     n_meta = len(mem)
     n_rows = 0
     for fam in ("hill", "shekel"):
@@ -233,11 +239,17 @@ def run(tier, r):
         rng_ = 1.0 if fam == "hill" else 10.0
         for i in rows:
             cseed = r.getrandbits(48)
-            viol, info = check_rows(fam, i, cseed)
+            n_rows += 3
+            res, err = oc.guarded(check_rows, fam, i, cseed)
+            if err is not None:
+                violations.append({"property": "C18", "part": "table", "family": fam, "row": i, "cseed": cseed,
+                                   "table": "*", "tier": tier, "clause": "exception", "observed": err})
+                stats["exceptions"] = stats.get("exceptions", 0) + 1
+                continue
+            viol, info = res
             for c in viol:
                 c["tier"] = tier
             violations += viol
-            n_rows += 3
             stats["table_rows"][fam] = stats["table_rows"].get(fam, 0) + 3
             stats["fast_path_rejected"] += 0 if info["fast_path"] else 1
             stats["analytic_derivative_rejected"] += 0 if info["analytic_derivative"] else 1
@@ -248,8 +260,9 @@ def run(tier, r):
             stats["max_L_rel_err"][fam] = max(stats["max_L_rel_err"].get(fam, 0.0), info["L_rel_err"])
             if len(samples) < 3 and not any(s.get("family") == fam for s in samples):
                 samples.append(info)
+    res, err = oc.guarded(check_metadata, "gkls", (3, 7))
     samples.append({"metadata_example": {"family": "gkls", "args": [3, 7],
-                                         "violations": check_metadata("gkls", (3, 7))[0]}})
+                                         "violations": res[0] if err is None else [err]}})
     stats["wall_s"] = round(time.time() - t0, 1)
     return {"explored": n_meta + n_rows, "distinct_nontrivial": n_meta + n_rows,
             "rule": "cases = constructed members (metadata part: every member listed in the module docstring, all "
@@ -261,9 +274,14 @@ def run(tier, r):
 
 def replay(case):
     if case["part"] == "metadata":
-        viol, info = check_metadata(case["family"], tuple(case["args"]))
+        res, err = oc.guarded(check_metadata, case["family"], tuple(case["args"]))
+    else:
+        res, err = oc.guarded(check_rows, case["family"], case["row"], case["cseed"])
+    if err is not None:
+        return {"reproduced": case["clause"] == "exception", "detail": err}
+    viol, info = res
+    if case["part"] == "metadata":
         hit = [c for c in viol if c["clause"] == case["clause"]]
     else:
-        viol, info = check_rows(case["family"], case["row"], case["cseed"])
         hit = [c for c in viol if c["clause"] == case["clause"] and c["table"] == case["table"]]
     return {"reproduced": bool(hit), "detail": hit[0]["observed"] if hit else {"info": info}}
